@@ -129,6 +129,9 @@ func parseCoin1(s string) (sdk.Coin, bool) {
 
 func (m *MonSwaps) AfterBlock(s *Sim, eb *ExecBlock) {
 	defer func() { m.reqs = nil; m.seenKeys = map[string]int{} }()
+	if !s.Ledger.BlockOK {
+		return // the event stream of this block is unusable (see Ledger.Ingest)
+	}
 	app := s.N0.App
 	ctx := s.Ctx()
 	// pools by address / id, with reserves at the END of the block; walk backwards to get
